@@ -52,11 +52,13 @@ func faultInputs() []faultInput {
 }
 
 // failingWriter fails at byte offset limit: mode "err" writes what fits and returns
-// an error; mode "short" writes what fits and returns a short count with a nil error.
+// (short count, error); mode "atomic" refuses the whole write that would cross the
+// limit and returns (0, error). (A short count with a nil error would violate the
+// io.Writer contract: bufio.Writer may then loop forever - not a legal environment.)
 type failingWriter struct {
 	buf   bytes.Buffer
 	limit int
-	short bool
+	short bool // "atomic" mode
 	hit   bool
 }
 
@@ -70,11 +72,12 @@ func (w *failingWriter) Write(p []byte) (int, error) {
 	if room < 0 {
 		room = 0
 	}
-	w.buf.Write(p[:room])
 	w.hit = true
 	if w.short {
-		return room, nil
+		w.limit = w.buf.Len() // nothing more is ever accepted
+		return 0, errInjected
 	}
+	w.buf.Write(p[:room])
 	return room, errInjected
 }
 
@@ -224,8 +227,20 @@ func runC17(ci interface{}, a *run.Acc) {
 			a.Eval(1)
 			a.NonTrivial(fmt.Sprintf("%d/%s/%d", c.Input, c.Op, off))
 			if !w.hit {
-				fail("harness", fmt.Sprintf("fault at offset %d of %d never triggered", off, full.Len()))
-				return
+				// the size of the output depends on the order in which zapx happens to lay out
+				// its sections (Go map order: offsets change the length of varints), so this
+				// run's output may be shorter than the recorded one and never reach the fault
+				// offset: then it must simply be a complete, correct output
+				if err != nil {
+					fail("spurious-error", fmt.Sprintf("no write failed (fault offset %d not reached) but WriteTo returned %v", off, err))
+					return
+				}
+				if m := CheckFile(w.buf.Bytes(), env.exp.Count, 1026); m != "" {
+					fail("incomplete-success", fmt.Sprintf("fault offset %d not reached, WriteTo returned nil, but %s", off, m))
+					return
+				}
+				a.Outcome("fault-not-reached(shorter layout)")
+				continue
 			}
 			if err == nil {
 				fail("silent-failure", fmt.Sprintf("the destination failed at byte offset %d of %d but WriteTo returned nil", off, full.Len()))
@@ -288,9 +303,18 @@ func runC17(ci interface{}, a *run.Acc) {
 			a.NonTrivial(fmt.Sprintf("%d/%s/%d", c.Input, c.Op, off))
 			st, statErr := os.Stat(p)
 			if opErr == nil {
-				msg := fmt.Sprintf("writes beyond byte %d of %d failed (EFBIG) but the operation returned nil", off, size)
+				// success under a size limit is legitimate only if this run's layout is
+				// shorter than the limit (see above): the file must then be complete and correct
+				if statErr == nil && st.Size() <= int64(off) {
+					if m := checkComplete(p, env.exp, 1026); m == "" {
+						zx.Remove(p)
+						a.Outcome("fault-not-reached(shorter layout)")
+						continue
+					}
+				}
+				msg := fmt.Sprintf("writes beyond byte %d failed (EFBIG; fault-free size %d) but the operation returned nil", off, size)
 				if statErr == nil {
-					msg += fmt.Sprintf("; a file of %d bytes is left", st.Size())
+					msg += fmt.Sprintf("; an incomplete file of %d bytes is left", st.Size())
 				}
 				zx.Remove(p)
 				fail("silent-failure", msg)
@@ -312,9 +336,9 @@ func init() {
 	run.Register(&run.Def{
 		ID:          "C17",
 		Level:       "fault_enumeration",
-		Rule:        "deviation enumeration on the real write paths: for each of 8 inputs (small, multi-field with doc values, synonyms, empty batch; merges of 2-3 segments with and without deletions, synonyms, overlapping field lists): WriteTo(w) with w failing at EVERY byte offset 0..len-1, once as (short count, error) and once as (short count, nil error); Persist(path) and Merge(...,path) under RLIMIT_FSIZE = N for EVERY N in [0, size) (a real torn write at byte N followed by EFBIG; DefaultFileMergerBufferSize = 16 so that flush boundaries are dense); plus the fault-free run of each. Oracle: every fault yields a non-nil error and, for the path-based operations, no file at the path; the fault-free run yields identical Persist/WriteTo bytes, a footer with count/chunk mode/version 16/CRC-32 (independent decoder), re-opens to the reference content, and Merge's maps and size are right. Non-trivial = one (input, operation, fault offset) whose fault was actually triggered.",
-		Assumptions: []string{"Sync and Close failures of the output file cannot be provoked through the OS interface used here and are not injected in this tier", "output paths do not exist before the call"},
-		Bounds:      map[string]string{"quick": "8 inputs, every byte offset of every output (2 WriteTo failure modes; Persist for the 4 build inputs; Merge for the 4 merge inputs)", "thorough": "same: the fault space is enumerated completely in both tiers"},
+		Rule:        "deviation enumeration on the real write paths: for each of 8 inputs (small, multi-field with doc values, synonyms, empty batch; merges of 2-3 segments with and without deletions, synonyms, overlapping field lists): WriteTo(w) with w failing at EVERY byte offset 0..len-1, once as (short count, error) and once as an all-or-nothing writer returning (0, error) for the write that would cross the offset; Persist(path) and Merge(...,path) under RLIMIT_FSIZE = N for EVERY N in [0, size) (a real torn write at byte N followed by EFBIG; DefaultFileMergerBufferSize = 16 so that flush boundaries are dense); plus the fault-free run of each. Oracle: every fault yields a non-nil error and, for the path-based operations, no file at the path; the fault-free run yields identical Persist/WriteTo bytes, a footer with count/chunk mode/version 16/CRC-32 (independent decoder), re-opens to the reference content, and Merge's maps and size are right. Non-trivial = one (input, operation, fault offset) whose fault was actually triggered.",
+		Assumptions: []string{"Sync and Close failures of the output file cannot be provoked through the OS interface used here and are not injected in this tier", "the size of an output depends on the order in which sections are laid out (Go map order changes varint lengths of offsets): a run whose output is shorter than the fault offset is accepted iff it is a complete correct output", "output paths do not exist before the call"},
+		Bounds:      map[string]string{"quick": "8 inputs, every byte offset of every output (2 legal WriteTo failure modes; Persist for the 4 build inputs; Merge for the 4 merge inputs)", "thorough": "same: the fault space is enumerated completely in both tiers"},
 		New:         func() interface{} { return &FaultCase{} },
 		Gen: func(tier string, emit func(interface{})) {
 			const of = 8
